@@ -10,7 +10,7 @@ from mbt import batch, tlc
 from real import rsync_real
 
 FILES = [["file", c, m, t] for c in (0, 1, 2) for m in (420, 384, 493, 292) for t in (1, 2)]
-LINKS = [["link", k] for k in ("rel_inside", "rel_up", "dangling", "abs_inside", "abs_outside")]
+LINKS = [["link", k] for k in ("rel_inside", "rel_up", "dangling", "abs_inside", "abs_inside_dd", "abs_outside")]
 LEAVES = FILES + LINKS + [["absent"]]
 DIRS = [["dir", m, ch] for m in (493, 365, 448) for ch in LEAVES]
 ENTRIES = LEAVES + DIRS
